@@ -148,6 +148,12 @@ WRONG = {
 SCHEMA_VARIANTS = ["omitted", "omitted", "identical", "copy", "reordered", "renumbered", "type", "nullability", "extra", "missing", "other_id"]
 
 
+def _hx(i):
+    import hashlib
+
+    return hashlib.sha256(str(i).encode()).hexdigest()
+
+
 @st.composite
 def batch(draw, fields, wrong_p=True):
     if draw(st.integers(0, 59)) == 0:
@@ -156,6 +162,18 @@ def batch(draw, fields, wrong_p=True):
         seedrows = [{f["name"]: draw(tbl.value_strategy(f["type"])) for f in fields} for _ in range(4)]
         filler = {f["name"]: draw(tbl.value_strategy(f["type"], small=True)) for f in fields}
         rows = [dict(filler) for _ in range(n)]
+        if draw(st.booleans()):
+            # a FAT file (well beyond 64 KiB on disk): values that differ from row to row defeat dictionary / run-length encoding
+            for i, r in enumerate(rows):
+                for f in fields:
+                    if f["type"] in ("string",):
+                        r[f["name"]] = _hx(i) + _hx(-i - 1)  # 128 incompressible characters
+                    elif f["type"] in ("int", "long"):
+                        r[f["name"]] = (i * 7919) % 100003
+                    elif f["type"] == "double":
+                        r[f["name"]] = ((i * 7919) % 100003) / 8.0
+                    elif f["type"] == "binary":
+                        r[f["name"]] = bytes.fromhex(_hx(i) + _hx(-i - 1))
         for p_, r in zip(draw(st.lists(st.integers(0, n - 1), min_size=4, max_size=4)), seedrows):
             rows[p_] = r
         return rows, ["big-batch"]
